@@ -661,6 +661,13 @@ class Reads:
         if isinstance(t, ast.UnaryOp) and isinstance(t.op, ast.Not):
             x, pol = Reads.nonempty_form(t.operand)
             return x, not pol
+        if isinstance(t, ast.Compare) and len(t.ops) == 1 and isinstance(t.left, ast.Constant) and not isinstance(
+                t.comparators[0], ast.Constant):
+            # `0 < len(x)`: read as `len(x) > 0`
+            mirror = {ast.Lt: ast.Gt, ast.Gt: ast.Lt, ast.LtE: ast.GtE, ast.GtE: ast.LtE, ast.Eq: ast.Eq,
+                      ast.NotEq: ast.NotEq}
+            if type(t.ops[0]) in mirror:
+                t = ast.Compare(left=t.comparators[0], ops=[mirror[type(t.ops[0])]()], comparators=[t.left])
         if isinstance(t, ast.Compare) and len(t.ops) == 1 and isinstance(t.comparators[0], ast.Constant) and \
                 isinstance(t.left, ast.Call) and _last(t.left) == "len" and len(t.left.args) == 1:
             c, op = t.comparators[0].value, type(t.ops[0])
